@@ -259,6 +259,11 @@ def run_case_whole(case):
         opts["target_efficiency"] = float(g.uniform(0.1, 0.9))
     if g.random() < 0.3:
         opts["min_step"] = float(10 ** g.uniform(-3, -0.3))
+    if g.random() < 0.35:
+        # an iteration count given together with the adaptive schedule (it only has a meaning for fixed schedules): the steps
+        # must still be the largest ones that meet the target
+        opts["n_steps"] = int(g.integers(2, 40))
+        STATE["counters"]["adaptive_runs_given_an_iteration_count"] += 1
     STATE["gen"] = "run"
     sampler = str(g.choice(["smc", "smc", "emcee_smc"]))
     if sampler == "emcee_smc":
